@@ -5,6 +5,8 @@ import (
 	"go/ast"
 	"go/token"
 	"go/types"
+	"os"
+	"runtime/debug"
 	"sort"
 	"strings"
 )
@@ -123,6 +125,9 @@ func VerifyFunc(prog *Program, pk *Pkg, fc *FuncContract, tier string) (rep *Fun
 		if r := recover(); r != nil {
 			if u, ok := r.(unsupported); ok {
 				rep.Err = u.msg
+				if os.Getenv("GOVC_VERBOSE") != "" {
+					rep.Err += "\n" + string(debug.Stack())
+				}
 				rep.Obligs = c.obligs
 				return
 			}
